@@ -126,5 +126,12 @@ func (n *Node) VTransition(s _state.State)      { n.transition(s) }
 func (n *Node) VInitialUndeterminedEvents() int { return n.initialUndeterminedEvents }
 func (n *Node) VSetBabblingOrCatchingUpState()  { n.setBabblingOrCatchingUpState() }
 func (n *Node) VNextPeer() *peers.Peer          { return n.core.peerSelector.next() }
+
+// VSelectorUpdateLast records an exchange with a peer in the peer selector, as
+// Node.gossip does when an exchange ends.
+func (n *Node) VSelectorUpdateLast(id uint32, connected bool) bool {
+	return n.core.peerSelector.updateLast(id, connected)
+}
+
 func (n *Node) VLockCore()                      { n.coreLock.Lock() }
 func (n *Node) VUnlockCore()                    { n.coreLock.Unlock() }
